@@ -20,10 +20,10 @@ import (
 // cmd/relay/cmd/serve.go and the claim names written by cmd/relay/cmd/token.go are inside the tie.
 
 var binInstances = []acc.BinOpts{
-	{Name: "i1", AllowNoBid: "", BufferSize: "", StatsEvery: "1s", TidyEvery: "5m", LogFile: "stdout", LogLevel: "warn"},
+	{Name: "i1", AllowNoBid: "", BufferSize: "", StatsEvery: "1s", TidyEvery: "5m", LogFile: "stdout", LogLevel: "debug"},
 	{Name: "i2", AllowNoBid: "true", BufferSize: "1", StatsEvery: "2s", TidyEvery: "1s", LogFile: "FILE", LogLevel: "error", LogFormat: "text",
 		Secret: "bin-new-secret-i2,"}, // RELAY_SECRET="${NEW},${OLD}" with OLD unset
-	{Name: "i3", AllowNoBid: "false", BufferSize: "700", StatsEvery: "", TidyEvery: "", LogFile: "stdout", LogLevel: "info"},
+	{Name: "i3", AllowNoBid: "false", BufferSize: "700", StatsEvery: "", TidyEvery: "", LogFile: "stdout", LogLevel: "trace"},
 }
 
 type binFinding struct{ clause, key, detail string }
